@@ -81,6 +81,7 @@ def menu(state, V, durs, offs, maxdiff=0.5, n_others=3):
             if i < 2:
                 yield ("morph", i)
     yield ("new",)
+    yield ("newname",)
 
 
 def apply(t, op, others):
@@ -106,6 +107,8 @@ def apply(t, op, others):
         return t
     if k == "new":
         return t.new()
+    if k == "newname":
+        return t.new(name="u")
     o = others[op[1]]
     if k == "union":
         return t.union(o)
@@ -147,6 +150,7 @@ def snippet(state, op, others_states):
                            else f"t.insertEntry(Point({op[1]!r}, 'n'), {op[2]!r}, 'silence'); r = t"),
         "delete": lambda: f"t.deleteEntry(t.entries[{op[1]}]); r = t",
         "new": lambda: "r = t.new()",
+        "newname": lambda: "r = t.new(name='u')",
         "union": lambda: "r = t.union(o)", "append": lambda: "r = t.appendTier(o)",
         "dejitter": lambda: f"r = t.dejitter(o, {op[2]!r})", "difference": lambda: "r = t.difference(o)",
         "intersection": lambda: "r = t.intersection(o)", "mergeLabels": lambda: "r = t.mergeLabels(o)",
